@@ -140,6 +140,36 @@ def analyse(facts, tier):
                         rhs = strip(v['init'])
             if rhs is None:
                 continue
+            # a pointer local that holds the answer of a local look-up helper stands for what the helper returns: NULL (tested by the
+            # caller before the store) or the address of a bank entry whose index obligation lies in the helper
+            via = None
+            if rhs.get('k') == 'DeclRefExpr' and not rhs.get('parm'):
+                d0 = single_defs(non.d).get(rhs.get('id'))
+                c0 = strip(d0) if d0 is not None else None
+                if c0 is not None and 'callee' in c0:
+                    for cf in facts.fns.get(callee_name(c0), [])[:1]:
+                        if is_local_helper(non, cf):
+                            rets = [strip(st2['s'].get('e')) for b2, j2, st2 in cf.cfg.returns() if st2['s'].get('e') is not None]
+                            addr = [r_ for r_ in rets if r_.get('k') == 'UnaryOperator' and r_.get('op') == '&']
+                            nulls = [r_ for r_ in rets if const_of(r_) == 0 or r_.get('k') in ('CXXNullPtrLiteralExpr', 'GNUNullExpr')]
+                            tested = any(f_[0] == 'truth' and f_[2] and strip(f_[1]).get('id') == rhs.get('id') for f_ in guard_facts(non, b, st))
+                            if addr and len(addr) + len(nulls) == len(rets) and (tested or not nulls):
+                                via = (cf, addr)
+            if via is not None:
+                cf, addr = via
+                okv = True
+                idxs = []
+                for r_ in addr:
+                    t = strip(r_['e'])
+                    if not (t.get('k') == 'ArraySubscriptExpr' and t.get('ext') == 128 and mentions(t['b'], member_named('ins'))):
+                        okv = False
+                        continue
+                    o = [o for o in res['obl'] if o.fn == cf.name and o.ln == t.get('ln') and o.construct == show(t)]
+                    okv = okv and bool(o) and all(q.ok for q in o)
+                    idxs += [str(q.idx) for q in o]
+                obls.append(Obl('C04.R3', non.name, 'ains = %s (answer of %s)' % (show(rhs), short(cf.name)), st['loc'], 'discharged' if okv else 'finding',
+                                why='the helper returns NULL (tested) or &bank->ins[i] with i in %s' % ', '.join(idxs) if okv else 'the helper can return a pointer that is not one of the 128 entries of a bank'))
+                continue
             if rhs.get('k') == 'UnaryOperator' and rhs['op'] == '&':
                 t = strip(rhs['e'])
                 if t.get('k') == 'ArraySubscriptExpr' and t.get('ext') == 128 and mentions(t['b'], member_named('ins')):
